@@ -177,6 +177,30 @@ func judgeC08(c C08Case) *Fail {
 			return failf("disabled-equals-absent", "removing the disabled entries changes the response:\n with    %s\n without %s %s", base.out.Body, r2.out.Body, r2.out.Err)
 		}
 	}
+	// through the service's own handler: a request that names no biases (key omitted, seed omitted) right after a
+	// REJECTED request that carried biases and a seed must report no bias entries and decide like the library does
+	prior := deepCopyM(m).(M)
+	prior["choseToMake"] = append(asL(prior["choseToMake"]), "noSuchAlternative")
+	prior["biasApplyRandomSeed"] = 12345
+	bare := deepCopyM(withBiases(m, nil)).(M)
+	delete(bare, "biases")
+	delete(bare, "biasApplyRandomSeed")
+	pr := handleInProcess(mustJSON(prior))
+	if pr.Code != 400 {
+		return failf("c08-prior-rejected", "a request naming an unknown alternative was answered %d", pr.Code)
+	}
+	hb := handleInProcess(mustJSON(bare))
+	lib := decide(mustJSON(bare))
+	if hb.Code != 200 || !lib.OK {
+		return failf("c08-accepted", "valid request without biases rejected: %d %s / %s", hb.Code, hb.Body, lib.Err)
+	}
+	if hr := parseResp(hb.Body); len(hr.Biases) != 0 {
+		return failf("one-entry-per-enabled-bias", "a request that names no biases (sent after a rejected request that did) is answered with bias entries: %s", mustJSON(hr.Biases))
+	}
+	if hb.Body != lib.Body {
+		return failf("handler-equals-library", "the handler's answer differs from the library's for the same body:\n handler %s\n library %s", hb.Body, lib.Body)
+	}
+	st.inc("C08:handler-after-rejected-checked")
 	if len(en) == 0 {
 		return nil
 	}
